@@ -102,6 +102,36 @@ reg('C15',
     'Fresh state differs only in deck order.',
     'DESIGN.md 4 C15')
 
+reg('C03',
+    'Hypothesis-generated histories + constructed short-all-in scenarios vs a'
+    ' reference model of the betting round; boundary-amount probes',
+    'Model-based generated-history test: actor, available actions, call and'
+    ' bring-in amounts, min/pot/max raise-to and acceptance of ~15 probe'
+    ' amounts per decision are compared with pkv/refbet.py in both'
+    ' directions; round end.',
+    'First actor of a round taken from the engine (C13 decides it); stacks'
+    ' and bets read from public attributes.',
+    'DESIGN.md 4 C03')
+reg('C12',
+    'Hypothesis-generated showdown histories vs reference award with every'
+    ' showdown player tabling all cards; tournament partial-show probes',
+    'Counterfactual differential test: payoffs with engine-decided'
+    ' mucks/kills equal the reference everybody-tables award; each automatic'
+    ' muck/kill hits a non-winner; winners end tabled.',
+    'Exact for Fraction chips with the default divmod; int/custom divmod'
+    ' within the odd-chip bound; no rake (rake is per pot and pots merge after'
+    ' a muck).',
+    'DESIGN.md 4 C12')
+reg('C13',
+    'Hypothesis-generated histories (rigged up-cards, blind families) vs an'
+    ' independent opener rule evaluated when dealing completes',
+    'Model-based generated-history test of who opens every betting round'
+    ' (and whether there is one), incl. bring-in poster.',
+    'First-round opener of button games judged only when every counted'
+    ' forced bet was posted in full and not for heads-up with equal/zero'
+    ' blinds (statement silent there).',
+    'DESIGN.md 4 C13')
+
 NOT_APPLICABLE = {}
 
 ALL = [f'C{i:02d}' for i in range(1, 21)]
